@@ -1,4 +1,5 @@
 import NunavutVerif.Lemmas.GenCSer
+import NunavutVerif.Lemmas.GenCDe
 import NunavutVerif.Lemmas.DsdlRepr
 /-!
 # C01 / C02 / C04 — the generated C codecs refine the DSDL specification
@@ -121,6 +122,107 @@ theorem C01_genC_serialize_options_agree (o₁ o₂ : Opts) (h₁ : o₁.Sound) 
   rw [C01_genC_serialize_eq_serBuf o₁ h₁ t hw hwC hc v ht hst buf cap hwf hcap,
     C01_genC_serialize_eq_serBuf o₂ h₂ t hw hwC hc v ht hst buf cap hwf hcap]
 
+/-! ## Deserialization -/
+
+/-- (d) The generated deserializer, given `cap` bytes, returns exactly what the specification returns on these
+bytes: the object (implicit zero extension where the data ends early, implicit truncation where it is longer,
+delimited members confined to their header), the consumed size `min(offset, capacity) / 8`, and the code of the
+specification's error (`BAD_ARRAY_LENGTH`, `BAD_UNION_TAG`, `BAD_DELIMITER_HEADER`). -/
+theorem C02_genC_deserialize_refines (o : Opts) (hs : o.Sound) (t : Ty) (hw : wf t = true) (hwC : wfC t = true)
+    (hc : isComposite (topInner t) = true) (buf : Buf) (cap : Nat) (hwf : WF buf) (hcap : cap ≤ buf.length) :
+    deserializeC o t buf cap = (deBytes t (buf.take cap)).mapError embedD :=
+  deserializeC_refines o hs t hw hwC hc buf cap hwf hcap
+
+/-- The usual call: the whole byte string is supplied. -/
+theorem C02_genC_deserialize_bytes (o : Opts) (hs : o.Sound) (t : Ty) (hw : wf t = true) (hwC : wfC t = true)
+    (hc : isComposite (topInner t) = true) (bytes : Buf) (hwf : WF bytes) :
+    deserializeC o t bytes bytes.length = (deBytes t bytes).mapError embedD := by
+  have := deserializeC_refines o hs t hw hwC hc bytes bytes.length hwf (Nat.le_refl _)
+  rwa [List.take_length] at this
+
+/-- `consumed ≤ supplied`, on the implementation model. -/
+theorem C02_genC_consumed_le_supplied (o : Opts) (hs : o.Sound) (t : Ty) (hw : wf t = true) (hwC : wfC t = true)
+    (hc : isComposite (topInner t) = true) (buf : Buf) (cap : Nat) (hwf : WF buf) (hcap : cap ≤ buf.length)
+    (v : Val) (n : Nat) (h : deserializeC o t buf cap = .ok (v, n)) : n ≤ cap := by
+  rw [deserializeC_refines o hs t hw hwC hc buf cap hwf hcap] at h
+  have hlen : (unpackBytes (buf.take cap)).length = 8 * cap := bitsOf_length hcap
+  simp only [deBytes, deTop, hlen] at h
+  cases hsp : deBits (topInner t) (unpackBytes (buf.take cap)) with
+  | error e => rw [hsp] at h; cases h
+  | ok r =>
+    obtain ⟨v', used⟩ := r
+    rw [hsp] at h
+    simp only [Except.mapError] at h
+    cases h
+    omega
+
+/-- Every exit of the generated deserializer is success or one of the three representation errors; the error is
+the specification's. -/
+theorem C02_genC_deserialize_exits (o : Opts) (hs : o.Sound) (t : Ty) (hw : wf t = true) (hwC : wfC t = true)
+    (hc : isComposite (topInner t) = true) (buf : Buf) (cap : Nat) (hwf : WF buf) (hcap : cap ≤ buf.length) :
+    (∃ r, deserializeC o t buf cap = .ok r) ∨ deserializeC o t buf cap = .error eBadArrayLength ∨
+      deserializeC o t buf cap = .error eBadUnionTag ∨ deserializeC o t buf cap = .error eBadDelimiterHeader := by
+  rw [deserializeC_refines o hs t hw hwC hc buf cap hwf hcap]
+  cases deBytes t (buf.take cap) with
+  | ok r => exact Or.inl ⟨r, rfl⟩
+  | error e =>
+    cases e
+    · exact Or.inr (Or.inl rfl)
+    · exact Or.inr (Or.inr (Or.inl rfl))
+    · exact Or.inr (Or.inr (Or.inr rfl))
+
+/-- (a) Memory safety of deserialization (serves C04): no getter and no raw `buffer[i]` read ever leaves the
+`cap` supplied bytes, no `nunavutGetBits` leaves the destination array (`Err.prim` unreachable; this includes the
+signed-overflow condition of the `nunavutGetIxx` sign extension), for all byte strings and sizes incl. 0, lengths
+and tags out of range, delimiter headers pointing anywhere. -/
+theorem C04_genC_deserialize_memory_safe (o : Opts) (hs : o.Sound) (t : Ty) (hw : wf t = true) (hwC : wfC t = true)
+    (hc : isComposite (topInner t) = true) (buf : Buf) (cap : Nat) (hwf : WF buf) (hcap : cap ≤ buf.length)
+    (e : Bits.Err) : deserializeC o t buf cap ≠ .error (.prim e) := by
+  rw [deserializeC_refines o hs t hw hwC hc buf cap hwf hcap]
+  cases deBytes t (buf.take cap) with
+  | ok r => intro h; cases h
+  | error e' => cases e' <;> intro h <;> cases h
+
+/-- Prior-state independence (C04): what the destination arrays held before the call (`fill`), the bytes of the
+buffer beyond the supplied size, the endianness rendering and the oracle have no influence on the result. -/
+theorem C04_genC_deserialize_prior_state_independent (o₁ o₂ : Opts) (h₁ : o₁.Sound) (h₂ : o₂.Sound) (t : Ty)
+    (hw : wf t = true) (hwC : wfC t = true) (hc : isComposite (topInner t) = true) (buf₁ buf₂ : Buf) (cap : Nat)
+    (hwf₁ : WF buf₁) (hwf₂ : WF buf₂) (hcap₁ : cap ≤ buf₁.length) (hcap₂ : cap ≤ buf₂.length)
+    (hsame : buf₁.take cap = buf₂.take cap) :
+    deserializeC o₁ t buf₁ cap = deserializeC o₂ t buf₂ cap := by
+  rw [deserializeC_refines o₁ h₁ t hw hwC hc buf₁ cap hwf₁ hcap₁,
+    deserializeC_refines o₂ h₂ t hw hwC hc buf₂ cap hwf₂ hcap₂, hsame]
+
+/-- (e) C03 cross-option corollary for deserialization. -/
+theorem C02_genC_deserialize_options_agree (o₁ o₂ : Opts) (h₁ : o₁.Sound) (h₂ : o₂.Sound) (t : Ty)
+    (hw : wf t = true) (hwC : wfC t = true) (hc : isComposite (topInner t) = true) (buf : Buf) (cap : Nat)
+    (hwf : WF buf) (hcap : cap ≤ buf.length) :
+    deserializeC o₁ t buf cap = deserializeC o₂ t buf cap :=
+  C04_genC_deserialize_prior_state_independent o₁ o₂ h₁ h₂ t hw hwC hc buf buf cap hwf hwf hcap hcap rfl
+
+/-- Round trip through the two generated functions (C03 on the implementation model): what the serializer leaves
+in the buffer, the deserializer maps back to the cast-adjusted object, consuming exactly the reported size. -/
+theorem C01_genC_round_trip (o : Opts) (hs : o.Sound) (t : Ty) (hw : wf t = true) (hwC : wfC t = true)
+    (hc : isComposite (topInner t) = true) (v : Val) (ht : hasTy t v = true) (hst : storageOK t v = true)
+    (buf : Buf) (cap : Nat) (hwf : WF buf) (hcap : cap ≤ buf.length) (buf' : Buf) (n : Nat)
+    (h : serializeC o t v buf cap = .ok (buf', n)) :
+    deserializeC o t buf' n = (deBytes t (buf'.take n)).mapError embedD ∧ serBytes t v = .ok (buf'.take n) := by
+  have hroom : maxBits (topInner t) ≤ 8 * cap := by
+    apply Nat.le_of_not_lt
+    intro hlt
+    rw [serializeC_tooSmall o hs t hc v ht buf cap hlt] at h
+    cases h
+  have := serializeC_refines o hs t hw hwC hc v ht hst buf cap hwf hcap hroom
+  cases hsb : serBytes t v with
+  | error e => rw [hsb] at this; rw [this] at h; cases h
+  | ok bytes =>
+    rw [hsb] at this
+    obtain ⟨b2, h1, h2, h3, h4⟩ := this
+    rw [h1] at h
+    cases h
+    refine ⟨deserializeC_refines o hs t hw hwC hc buf' _ h4 ?_, by rw [h2]⟩
+    rw [← h2]; simp [List.length_take]; omega
+
 /-! ### non-vacuity -/
 
 /-- `struct { truncated uint5 x; void3; int16 y; bool[3] f; Inner[<=2] z }`-like type with a delimited member -/
@@ -149,5 +251,18 @@ example : serializeC optLittle exTy exVal (List.replicate 15 255) 15 = .error eT
 
 example : serializeC optAny (.struct [.varr .bool 2]) (.struct [.arr [.bool true, .bool true, .bool false]])
     (List.replicate 4 0) 4 = .error eBadArrayLength := by decide
+
+example : deserializeC optAny exTy [31, 254, 255, 5, 5, 0, 0, 0, 23, 216, 255, 255, 3] 13
+    = .ok (.struct [.int 31, .void, .int (-2), .arr [.bool true, .bool false, .bool true],
+        .struct [.int 7, .arr [.int (-5), .int 2047]]], 13) := by decide
+
+/-- implicit zero extension: two bytes only -/
+example : deserializeC optLittle exTy [31, 254] 2
+    = .ok (.struct [.int 31, .void, .int 254, .arr [.bool false, .bool false, .bool false],
+        .struct [.int 0, .arr []]], 2) := by decide
+
+example : deserializeC optAny exTy [31, 254, 255, 5, 9, 0, 0, 0, 23] 9 = .error eBadDelimiterHeader := by decide
+
+example : deserializeC optAny exTy [31, 254, 255, 5, 2, 0, 0, 0, 23, 3] 10 = .error eBadArrayLength := by decide
 
 end NunavutVerif.GenC
